@@ -60,6 +60,10 @@ pub enum IoOp {
     CopyOut,
     /// Read::take(k).read_to_end
     TakeToEnd(u32),
+    /// Read::read_to_string (cases containing it use a payload of multi-byte UTF-8 text)
+    ReadToString,
+    /// BufRead::read_line (same payload)
+    ReadLine,
 }
 
 #[derive(Debug, Clone, PartialEq, Eq, Hash, Serialize, Deserialize)]
@@ -112,6 +116,8 @@ pub trait ByteDeq {
     fn s_bytes(&mut self, k: usize) -> Vec<Result<u8, String>>;
     fn s_copy_out(&mut self, v: &mut Vec<u8>) -> std::io::Result<u64>;
     fn s_take_to_end(&mut self, k: u64, v: &mut Vec<u8>) -> std::io::Result<usize>;
+    fn s_read_to_string(&mut self, v: &mut String) -> std::io::Result<usize>;
+    fn s_read_line(&mut self, v: &mut String) -> std::io::Result<usize>;
     // embedded-io (Err(String) = returned an error; None = Pending for async)
     fn e_write(&mut self, api: Api, s: &[u8]) -> Option<Result<usize, String>>;
     fn e_flush(&mut self, api: Api) -> Option<Result<(), String>>;
@@ -225,6 +231,12 @@ impl<const N: usize> ByteDeq for CircularBuffer<N, u8> {
     }
     fn s_take_to_end(&mut self, k: u64, v: &mut Vec<u8>) -> std::io::Result<usize> {
         Read::take(Read::by_ref(self), k).read_to_end(v)
+    }
+    fn s_read_to_string(&mut self, v: &mut String) -> std::io::Result<usize> {
+        Read::read_to_string(self, v)
+    }
+    fn s_read_line(&mut self, v: &mut String) -> std::io::Result<usize> {
+        BufRead::read_line(self, v)
     }
     #[allow(unused_variables)]
     fn e_read_exact(&mut self, api: Api, d: &mut [u8]) -> Option<Result<(), bool>> {
@@ -423,13 +435,18 @@ impl Sub {
     }
 }
 
-struct Payload(u32, bool);
+struct Payload(u32, bool, bool);
+const TEXT: &[u8] = "a\u{e9}\u{20ac}\u{1f600}\nz".as_bytes();
 impl Payload {
     /// mode false: running counter 1..=89, never equal to a poison pattern (0x00, 0x5A, 0xEE, 0xFF);
     /// mode true: a sequence over ALL byte values (0x00 and 0xFF included, runs of equal bytes), so
     /// that value-dependent fast paths are exercised too
     fn next(&mut self) -> u8 {
         self.0 += 1;
+        if self.2 {
+            // multi-byte UTF-8 text: 1-, 2-, 3- and 4-byte characters and a newline
+            return TEXT[(self.0 as usize - 1) % TEXT.len()];
+        }
         if self.1 {
             let k = self.0;
             match k % 7 {
@@ -470,8 +487,9 @@ pub fn run_io_case(case: &IoCase) -> Result<u64, String> {
     }
     // the filling 0x5A selects the full-range payload (0x5A itself is then a possible payload byte too)
     let wide = case.pattern == 0x5A && case.route % 2 == 0;
-    let mut pay = Payload(0, wide);
-    let mut pay_twin = Payload(0, wide);
+    let text = case.ops.iter().any(|o| matches!(o, IoOp::ReadToString | IoOp::ReadLine));
+    let mut pay = Payload(0, wide, text);
+    let mut pay_twin = Payload(0, wide, text);
     let mut a = Sub::build(n, case.start as usize, case.len as usize, case.route, case.pattern, &mut pay)?;
     let differential = case.api != Api::Std;
     let mut twin = if differential {
@@ -828,6 +846,30 @@ pub fn run_io_case(case: &IoCase) -> Result<u64, String> {
                 }
                 model.drain(..lim);
             }
+            IoOp::ReadToString | IoOp::ReadLine => {
+                if api != Api::Std {
+                    continue;
+                }
+                let line = matches!(op, IoOp::ReadLine);
+                let take = if line { model.iter().position(|b| *b == b'\n').map(|i| i + 1).unwrap_or(len) } else { len };
+                let want = std::str::from_utf8(&model[..take]).ok().map(|t| t.to_string());
+                let mut v = String::from("p\u{e9}");
+                let r = if line { guard("read_line", || a.b.s_read_line(&mut v))? } else { guard("read_to_string", || a.b.s_read_to_string(&mut v))? };
+                match (&want, r) {
+                    (Some(t), Ok(k)) if k == take && v == format!("p\u{e9}{t}") => {}
+                    (None, Err(e)) if e.kind() == std::io::ErrorKind::InvalidData && v == "p\u{e9}" => {}
+                    (w, r) => {
+                        return Err(ctx(format!(
+                            "returned {:?} and left the destination as {:?}; the bytes {:?} decode as {:?} (the result must not depend on where the contents wrap)",
+                            r.map_err(|e| e.to_string()), v, &model[..take], w
+                        )))
+                    }
+                }
+                if take < len {
+                    flags |= iofl::PARTIAL;
+                }
+                model.drain(..take);
+            }
             IoOp::Consume(k) => {
                 let k = k.resolve(len);
                 if k > len {
@@ -853,6 +895,10 @@ pub fn run_io_case(case: &IoCase) -> Result<u64, String> {
         if let Some(t) = twin.as_mut() {
             if t.b.contents() != c {
                 return Err(ctx(format!("std twin holds {:?}, embedded subject holds {:?}", t.b.contents(), c)));
+            }
+            let (sa, st) = (a.slots()?, t.slots()?);
+            if sa != st {
+                return Err(ctx(format!("the contents sit in slots {:?} after the embedded call but in slots {:?} after the std::io call in the same state", sa, st)));
             }
             t.poison()?;
         }
@@ -895,6 +941,8 @@ pub fn enum_ops(n: usize, len: usize, full: bool) -> Vec<IoOp> {
         ops.push(IoOp::ReadUntil(k));
     }
     ops.push(IoOp::CopyOut);
+    ops.push(IoOp::ReadToString);
+    ops.push(IoOp::ReadLine);
     for k in 0..=(len + 1) as u32 {
         ops.push(IoOp::Bytes(k));
         ops.push(IoOp::TakeToEnd(k));
@@ -968,6 +1016,8 @@ pub fn io_case_strategy(api: Api, max_ops: usize) -> proptest::strategy::BoxedSt
                 1 => sz.clone().prop_map(IoOp::Bytes),
                 1 => sz.clone().prop_map(IoOp::TakeToEnd),
                 1 => Just(IoOp::CopyOut),
+                1 => Just(IoOp::ReadToString),
+                1 => Just(IoOp::ReadLine),
             ];
             (Just(n), any::<u16>(), any::<u16>(), 0u8..3, proptest::sample::select(vec![0u8, 0xFF, 0x5A]), proptest::collection::vec(op, 0..=max_ops))
         })
